@@ -11,7 +11,7 @@ while IFS=$'\t' read -r NAME CHK EXP; do
   echo "$NAME" | grep -qE "$FILTER" || continue
   WT=$(mktemp -d /tmp/mutwt.XXXXXX)
   git -C /repo worktree add -q --detach "$WT" HEAD || exit 2
-  if ! git -C "$WT" apply "mutants/$NAME.diff" 2>/dev/null; then
+  if ! git -C "$WT" apply "/verif/mutants/$NAME.diff" 2>/dev/null; then
     printf "%-40s %-4s %-7s %s\n" "$NAME" "$CHK" "$EXP" "PATCH-DOES-NOT-APPLY"
     git -C /repo worktree remove --force "$WT"; continue
   fi
